@@ -29,8 +29,9 @@ open Typedpy
 inductive Scalar where | int | str | float | bool | any
 deriving Repr, DecidableEq, Inhabited
 
-/-- one-argument collections -/
-inductive Coll where | list | set | frozenset | deque
+/-- one-argument collections; `tuple` only has parametrised forms (`Tuple` requires `items`): its bare
+    forms raise TypeError -/
+inductive Coll where | list | set | frozenset | deque | tuple
 deriving Repr, DecidableEq, Inhabited
 
 def Scalar.atom : Scalar → Atom
@@ -38,11 +39,11 @@ def Scalar.atom : Scalar → Atom
 def Scalar.head : Scalar → Head
   | .int => .integer | .str => .string | .float => .float | .bool => .boolean | .any => .anything
 def Coll.atom : Coll → Atom
-  | .list => .list | .set => .set | .frozenset => .frozenset | .deque => .deque
+  | .list => .list | .set => .set | .frozenset => .frozenset | .deque => .deque | .tuple => .tuple
 def Coll.tAtom : Coll → Atom
-  | .list => .tList | .set => .tSet | .frozenset => .tFrozenSet | .deque => .tDeque
+  | .list => .tList | .set => .tSet | .frozenset => .tFrozenSet | .deque => .tDeque | .tuple => .tTuple
 def Coll.head : Coll → Head
-  | .list => .array | .set => .set | .frozenset => .immSet | .deque => .deque
+  | .list => .array | .set => .set | .frozenset => .immSet | .deque => .deque | .tuple => .tuple
 
 /-- a type expression as written in an annotation or on the right-hand side of an assignment -/
 inductive Sp where
@@ -169,7 +170,10 @@ def mkItems : Head → List FieldDecl → R FieldDecl
   | .set, [d] => .ok (.setOf false d {})
   | .immSet, [d] => .ok (.setOf true d {})
   | .map, [k, v] => .ok (.mapOf k v {})
-  | .tuple, _ => .error (.other "unmodelled-tuple")
+  /- documented: a single item field = a tuple of any number of such elements (a Field class given as
+     the single item is instantiated); two or more = a tuple of exactly that shape -/
+  | .tuple, [d] => .ok (.tupleOf d false)
+  | .tuple, d₁ :: d₂ :: ds => .ok (.tuplePos (d₁ :: d₂ :: ds) false)
   | _, _ => .error .typeErr
 
 /-- `_mapped_type_of_mapped_args` (and `mapped_type()` when there are no arguments) -/
@@ -371,12 +375,12 @@ def Scalar.builtinLen : Scalar → Nat
 def Scalar.clsLen : Scalar → Nat
   | .int => 7 | .str => 6 | .float => 5 | .bool => 7 | .any => 8
 def Coll.builtinLen : Coll → Nat
-  | .list => 4 | .set => 3 | .frozenset => 9 | .deque => 5
-/-- `List` `typing.Set` `FrozenSet` `typing.Deque` -/
+  | .list => 4 | .set => 3 | .frozenset => 9 | .deque => 5 | .tuple => 5
+/-- `List` `typing.Set` `FrozenSet` `typing.Deque` `typing.Tuple` -/
 def Coll.typingLen : Coll → Nat
-  | .list => 4 | .set => 10 | .frozenset => 9 | .deque => 12
+  | .list => 4 | .set => 10 | .frozenset => 9 | .deque => 12 | .tuple => 12
 def Coll.clsLen : Coll → Nat
-  | .list => 5 | .set => 3 | .frozenset => 12 | .deque => 5
+  | .list => 5 | .set => 3 | .frozenset => 12 | .deque => 5 | .tuple => 5
 
 def isPipe : Sp → Bool
   | .pipe _ _ => true
